@@ -216,6 +216,8 @@ class C06(Engine):
         def mk(site, detail):
             return Violation(self.prop, clause, f"cli state[{','.join(delta) or 'unchanged'}] {site}", detail)
         end = o.get("end")
+        if end in ("invalid-scenario", "slow"):
+            return vs
         all_sigs = {p: refsig(fid) for p, fid in tf.items()}
         if end in ("internal", "hang"):
             got = cli_sig(o)
